@@ -551,6 +551,10 @@ def r9(ctx):
         return
     pt = ctx.need_body(rule, 'dedupe::partition')
     ds = ctx.need_body(rule, 'dedupe::PartitionedFileGroup::dedupe_script')
+    if ds is not None:
+        # the loop over the dropped files may be written as `into_iter().filter_map(|f| ..).collect()`: the closure body is looked at where the loop would stand
+        from ..desugar import desugared
+        ds = desugared(lib, ds, adaptors=True)
     if pt is None or ds is None:
         return
     # (a) partition: a retained-set extension that depends on link-ness
